@@ -778,8 +778,8 @@ var (
 	urlQ      = rapid.SampledFrom([]string{"", "x=1", "x=1&y=2", "y=<2>", "q=\"a\"", "a='b'", "a=\\", "a=+", "é=世", "a= ", "a=%26", "a=%zz", "&&", "=", "a=b c", "a=#",
 		// texts copied out of JSON / JS / HTML sources without decoding, astral and tag characters
 		"next=/a\\u0026b=1", "x=\\u003cb\\u003e", "a=\\\\", "a=\\\"", "q=&amp;", "q=\\n", "t=\U000E0067\U000E007F", "p=\U000F0001", "e=\U0001F600", "n=\u2028"})
-	urlFrag   = rapid.SampledFrom([]string{"", "f", "a b", "%41", "<x>", "\"", "é", "%zz", "a#b"})
-	urlPiece  = rapid.OneOf(
+	urlFrag  = rapid.SampledFrom([]string{"", "f", "a b", "%41", "<x>", "\"", "é", "%zz", "a#b"})
+	urlPiece = rapid.OneOf(
 		rapid.SampledFrom([]string{"http", "https", "grpc", "file", "mailto", ":", "//", "/", "?", "#", "@", "user", "pass", "host", "example.com", "[::1]", "[fe80::1%25eth0]", "1.2.3.4", ":80", ":", "%2F", "%20", "%zz", "%", "&", "=", "<", ">", "\"", "'", "\\", " ", "+", ";", "é", "世", " ", "a", "b", "..", ".", "*", "|", "^", "`", "{", "}", "~", "!", "$", ",", "\\u0026", "\\u003c", "\\u003e", "\\\\", "\U000E0067", "\U0010FFFD", "null", "true", "false", "NaN", "0", "-1", "\"\"", "{}", "[]", "undefined"}),
 		rapid.StringN(0, 3, -1),
 	)
@@ -861,6 +861,45 @@ var (
 
 // HostsLine generates one hosts-file line without LF.
 func HostsLine() *rapid.Generator[string] { return hostsLine }
+
+// HostsLineVast generates one hosts-file record line whose names part is longer
+// than 64 KiB (the limit of bufio.Scanner lines, which a direct UnmarshalText
+// call is not subject to): thousands of names and / or a very long run of
+// delimiters, optionally a bad name far from the start and a comment.
+func HostsLineVast() *rapid.Generator[string] { return hostsLineVast }
+
+var hostsLineVast = rapid.Custom(func(t *rapid.T) string {
+	var sb strings.Builder
+	sb.WriteString(rapid.SampledFrom([]string{"1.2.3.4", "::1", "fe80::1%eth0", "  10.0.0.1"}).Draw(t, "addr"))
+	mode := rapid.IntRange(0, 3).Draw(t, "mode")
+	runAt := -1
+	n := rapid.SampledFrom([]int{3300, 4100, 6600}).Draw(t, "names")
+	if mode >= 2 {
+		// A delimiter run of more than 64 KiB before name runAt, few names.
+		n = rapid.IntRange(1, 40).Draw(t, "fewnames")
+		runAt = rapid.IntRange(0, n-1).Draw(t, "runat")
+	}
+	badAt := -1
+	if rapid.IntRange(0, 2).Draw(t, "bad") == 0 {
+		badAt = n - 1 - rapid.IntRange(0, min(n-1, 3)).Draw(t, "badat")
+	}
+	sfx := rapid.SampledFrom([]string{".lan", ".Example.ORG", ".x"}).Draw(t, "sfx")
+	for i := 0; i < n; i++ {
+		if i == runAt {
+			sb.WriteString(strings.Repeat(rapid.SampledFrom([]string{" ", "\t", " \t"}).Draw(t, "runws"), rapid.SampledFrom([]int{65530, 65536, 65537, 70000}).Draw(t, "runlen")))
+		}
+		sb.WriteString(rapid.SampledFrom([]string{" ", "\t", "  "}).Draw(t, "ws"))
+		if i == badAt {
+			sb.WriteString(rapid.SampledFrom([]string{"bad..name", "-x-.", "a_b!c", "1.2.3.4"}).Draw(t, "badname"))
+			continue
+		}
+		sb.WriteString("h" + itoa(i) + sfx)
+	}
+	if rapid.Bool().Draw(t, "comment") {
+		sb.WriteString(" # c")
+	}
+	return sb.String()
+})
 
 var hostsLine = rapid.Custom(func(t *rapid.T) string {
 	var sb strings.Builder
